@@ -74,6 +74,9 @@ def run(pid, chk, max_mutants=None):
         overlays, d = r
         try:
             Fm = facts.Facts.load("/repo", overlays=overlays)
+            import flow, versions
+            flow.KEYNODE.clear()
+            versions.VERSION_LOCALS.clear()
             sub = report.Check(pid, "quick", chk.level)  # mutants are analysed with the named versions
             try:
                 mod.run(Fm, sub)
